@@ -334,6 +334,9 @@ func c18EniConfigMap(e c18EniConf) *corev1.ConfigMap {
 	}
 	if e.SingleSG {
 		conf["security_group"] = "sg-legacy"
+		if e.LegacyInList && e.SGs > 0 {
+			conf["security_group"] = c18SGIDs("d", e.SGs)[e.SGs-1]
+		}
 	}
 	b, _ := json.Marshal(conf)
 	return &corev1.ConfigMap{
@@ -587,6 +590,15 @@ func c18Run(c *vt.Ctx, s c18Scenario) {
 	}
 	c.Labelf("cfg:ipam=%q", s.IPAM)
 	c.Labelf("cfg:inject=%v,trunk=%v", s.Inject, s.Trunk)
+	if !s.EniConf.Missing {
+		eff := s.EniConf.SGs
+		if s.EniConf.SingleSG && !(s.EniConf.LegacyInList && s.EniConf.SGs > 0) {
+			eff++
+		}
+		if eff >= 9 {
+			c.Labelf("eniconf:default-groups=%d(list %d)", eff, s.EniConf.SGs)
+		}
+	}
 
 	// sentence 1a/1b: host network and ignored pods are admitted unchanged
 	if p.HostNetwork || p.Ignore == "true" {
